@@ -313,6 +313,7 @@ type c13Case struct {
 var c13Hostile = []string{
 	`x"; DROP TABLE sentinel; --`, `x" OR "1"="1`, `"`, `""`, `a"b`, `a'b`, `'; DELETE FROM sentinel; --`, `a;b`, `a--b`, `a/*b*/c`, "a\x00b", "a\nb", "a b", `a\b`, `a.b`, `sentinel"."secret`,
 	"a”b", "a＂b", "a；b", ";", "1abc", "", " ", "*", "a,b", "a`b", "`", "a)b", "(a", "a=b", "id; --", "id\n", "id ", " id", "id\t", "ID\r", "naïve", "имя", "a\u0000", "\xff\xfe", "a%b", "a$1", "$1", "?", "a?b",
+	"u\u017fers", "\u212aeys", "pa\u017f\u017fword", "\u212a", "\u017f", "ıd", "İd", "ǅ", "ﬁeld", "id\u0307",
 	"select", "table", "drop", "null", "order", "group", "union", "where", "from", "values", "set", "and", "or", "not", "_x", "a1", "A_B_c9", "x" + strings.Repeat("y", 300),
 }
 
